@@ -10,6 +10,7 @@ import (
 	"strings"
 	"sync"
 	"testing"
+	"time"
 
 	bexpr "github.com/hashicorp/go-bexpr"
 	"github.com/hashicorp/go-bexpr/grammar"
@@ -23,7 +24,7 @@ import (
 
 // C12 — one Evaluator or Filter can be shared by concurrent goroutines.
 
-const c12Rule = "rapid: expression (forced share of matches / not matches, quantifiers, unknown value, identity hook) x 2-4 data x k in 2..8 goroutines x calls per goroutine; " +
+const c12Rule = "rapid: expression (forced share of matches / not matches, quantifiers, unknown value, identity hook, a hook that re-enters the same evaluator) x 2-4 data x k in 2..8 goroutines x calls per goroutine; " +
 	"a FRESH evaluator (and filter) per case so that the first matches evaluation happens concurrently, then a steady-state round; concurrent CreateEvaluator on the same text; " +
 	"harness built with -race: any report of the race detector during the case fails it (happens-before detection: independent of the schedule observed); every concurrent " +
 	"result must equal the sequential result; non-trivial = a matches node evaluated by >= 2 goroutines before any sequential use, or a quantifier evaluated concurrently on " +
@@ -90,6 +91,7 @@ func c12Run(t failer, c *c12Case) {
 	opts := c.Opts.Options()
 	// sequential reference results from a separate evaluator
 	seqEv, err := bexpr.CreateEvaluator(text, opts...)
+	bindSelf(seqEv)
 	if err != nil {
 		t.Fatalf("harness: %s rejected: %v", c.TextQ, err)
 	}
@@ -97,6 +99,7 @@ func c12Run(t failer, c *c12Case) {
 	want := make([]c12Result, len(c.Pool))
 	for i, p := range c.Pool {
 		data[i] = p.Interface()
+		aimSelf(seqEv, data[i])
 		want[i] = c12One(seqEv, data[i])
 	}
 	elems := c.Pool
@@ -127,7 +130,9 @@ func c12Run(t failer, c *c12Case) {
 
 	before := raceLogSize()
 	// fresh shared instances: first use happens concurrently
-	ev, _ := bexpr.CreateEvaluator(text, opts...)
+	ev, _ := bexpr.CreateEvaluator(text, c.Opts.Options()...)
+	bindSelf(ev)
+	aimSelf(ev, data[0])
 	flt, _ := bexpr.CreateFilter(text)
 	var wg sync.WaitGroup
 	var mu sync.Mutex
@@ -174,7 +179,13 @@ func c12Run(t failer, c *c12Case) {
 		}(g)
 	}
 	close(start)
-	wg.Wait()
+	done := make(chan struct{})
+	go func() { wg.Wait(); close(done) }()
+	select {
+	case <-done:
+	case <-time.After(60 * time.Second):
+		violation(t, "C12", "TestC12_Shared", c, "%d goroutines sharing one evaluator/filter for %s did not return within 60 s (each call returns within milliseconds when made alone): a deadlock", c.K, c.TextQ)
+	}
 	if len(failures) > 0 {
 		violation(t, "C12", "TestC12_Shared", c, "concurrent results differ from sequential ones:\n %s\n expr: %s", strings.Join(failures, "\n "), c.TextQ)
 	}
@@ -219,6 +230,8 @@ func TestC12_Shared(t *testing.T) {
 			o.HasUnknown, o.Unknown = true, uni.Str("abc")
 		case 1:
 			o.Hook = int(ref.HookIdentity)
+		case 2:
+			o.Hook = int(ref.HookSelf) // the hook asks the same evaluator again, from inside the concurrent calls
 		}
 		g := gen.NewExprGen(t, pool[0], "")
 		var e bx.Expr
